@@ -146,7 +146,8 @@ class Operand(ABC):
         if not self.is_unknown():
             return self
 
-        if self.value.is_numeric() and not self.value.is_negative() and (self.value.is_direct() or old_value.is_explicit_direct()):
+        if self.value.is_numeric() and not self.value.is_negative() and (
+                old_value.is_explicit_direct() or (self.value.is_direct() and self.value.int <= 0xFF)):
             return DirectOperand(self.operand_string, self.instruction, DirectNumericValue(self.value.int))
 
         return ExtendedOperand(self.operand_string, self.instruction, value=self.value)
@@ -539,7 +540,7 @@ class ExtendedIndexedOperand(Operand):
         if self.value.is_leftright() and not INDEX_REGISTER_REGEX.match(self.right):
             raise OperandTypeError("[{}] invalid index register".format(self.right))
 
-        if type(self.value) != str and self.value.is_address():
+        if type(self.value) != str and (self.value.is_address() or self.value.is_address_expression()):
             size += 2
             return CodePackage(
                 op_code=NumericValue(self.instruction.mode.ind),
